@@ -37,6 +37,11 @@ class Region(abc.ABC):
 
         return self.__class__(**changes)
 
+    def __delattr__(self, name):
+        if name in self._params:
+            raise AttributeError(f'cannot delete {name!r}')
+        super().__delattr__(name)
+
     def __repr__(self):
         prefix = f'{self.__class__.__name__}'
         cls_info = []
